@@ -87,7 +87,7 @@ func RawCases() []rawCase {
 }
 
 func normDesc(s string) string {
-	return strings.TrimLeft(strings.TrimSpace(s), "# \t")
+	return strings.TrimSpace(s) // the text behind the '#', without it: an indented '#' is no part of the description
 }
 
 func init() {
